@@ -67,6 +67,14 @@ C = {
    text="Lean invariant proof (memory store): in every reachable state — any shard count, any history of puts incl. repeated ones, deletes of absent peers, graduation, expiry of whole swarms — each shard's seeder and leecher counters equal the number of memberships it stores, as integers (so the uint64 never goes below zero or wraps), and the exported totals are the sums over the shards. Redis: executable model of the counter protocol, compared (counters and gauges) after every mutating step incl. several instances.",
    note="trusted: as C01; 'every instant a reader can observe' rests on C04 (counters change only inside the shard's write section); Redis counters are claimed at quiescent points only",
    tech="Lean 4 invariant proof by induction over operations + differential correspondence reading counters and Prometheus gauges after every step"),
+ "C12": dict(
+   text="Lean theorems for arbitrary hook functions and chains of any length: if HandleAnnounce fails, the hooks that ran are exactly 0..k with the failing one last, there is no response, and outcome and log are identical for every store content (the store is never consulted, so no peer information can reach the client); if all pre-hooks accept, the log is 0..|pre| and the response is the response hook applied last to what the pre-hooks produced; the post phase runs the post-hooks and then the swarm interaction exactly once, not at all after a failing post-hook (reading R3) or when the skip flag is set; SkipResponseHook leaves the response untouched; through the HTTP route a rejection yields only the error body, never starts post-hooks and leaves the store unchanged; through UDP a rejection yields only the error datagram and no post-hooks. Tied by differential runs of random table-driven hook chains through the real Logic behind both real frontends over real stores, comparing logs, counts and full store dumps.",
+   note="trusted: Lean kernel + 3 standard axioms; harness + shims; harness hooks are table-driven; goroutine scheduling of post-hooks is observed by waiting, not proved (see C16)",
+   tech="Lean 4 proof (induction over hook chains; non-interference in the store) + differential correspondence with invocation logs and store dumps"),
+ "C13": dict(
+   text="The whole request path is a composition of total Lean functions with Go panics modelled as explicit outcomes; theorems: for a 4- or 16-byte source address the UDP handler never reaches a panic outcome, for every packet, configuration, logic and clock; a connect with the magic and every announce/scrape with a valid connection ID get exactly one datagram (at most one by construction); the HTTP announce route always produces a body provided the store hands out family-correct addresses (store invariant), rejected requests always do; with C17/C01 the store invariant holds after every history, so later requests are answered per the model. Tied by differential runs of malformed and well-formed requests interleaved through both real frontends under recover, with crash, double-datagram, stray-post-hook and leak detection and store dumps after every request.",
+   note="trusted: Lean kernel + 3 standard axioms; harness + shims; net/http request syntax, goroutine/GC/memory behaviour (wedging by resource exhaustion) are runtime behaviour observed by the harness (timeouts, memory limit), not proved; third-party hooks are assumed total",
+   tech="Lean 4 proof (totality with explicit panic outcomes; unreachability) + differential correspondence under recover with interleaved probes"),
 }
 
 def main():
